@@ -245,6 +245,8 @@ def main(argv=None):
                 errors.append('%s: cover check failed: %s' % (o['contract'], n))
         for u in o['info'].get('uncovered', []):
             errors.append('%s: outcome not covered by any clause: %s' % (o['contract'], u))
+        for u in o['info'].get('unverified_units', []):
+            errors.append('%s: calls the native coroutine %s, which has no contract (its body is not verified)' % (o['contract'], u))
         for r in o['results']:
             all_res.append(r)
             if r['status'] == 'error':
